@@ -239,6 +239,61 @@ impl KindFn for Cell<'_> {
                     if b.is_ok() { "Ok".to_string() } else { format!("{:?}", b.as_ref().err().unwrap()) }
                 ),
             }
+            // the complete reader's typed routes (shape + attribute row): same verdict, same shapes
+            if self.n <= 64 {
+                use shapefile::dbase;
+                let dbf = dbf_with_rows(self.n);
+                let mk = || -> Result<shapefile::Reader<std::io::Cursor<Vec<u8>>, std::io::Cursor<Vec<u8>>>, Fail> {
+                    let dr = dbase::Reader::new(std::io::Cursor::new(dbf.clone())).map_err(|e| Fail::new("open-error", format!("dbf: {:?}", e)))?;
+                    Ok(shapefile::Reader::new(open()?, dr))
+                };
+                let all = mk()?.read_as::<S, dbase::Record>();
+                let mut rd = mk()?;
+                let first = rd.iter_shapes_and_records_as::<S, dbase::Record>().next();
+                match (&all, &typed) {
+                    (Ok(a), Ok(b)) => {
+                        ensure!(a.len() == b.len(), "count", "Reader::read_as::<{}> returns {} pairs, ShapeReader::read_as {} shapes", s_ty.name(), a.len(), b.len());
+                        for (i, ((x, _), y)) in a.iter().zip(b.iter()).enumerate() {
+                            ensure!(x.view() == y.view(), "typed-vs-generic", "Reader::read_as::<{}>: pair {} holds another shape than ShapeReader::read_as", s_ty.name(), i);
+                        }
+                    }
+                    (Err(ea), Err(_)) => ensure!(
+                        mismatch_of(ea) == Some((s_ty, self.actual)),
+                        "typed-error",
+                        "Reader::read_as::<{}> on a {} file: {:?}",
+                        s_ty.name(),
+                        self.actual.name(),
+                        ea
+                    ),
+                    (a, b) => fail!(
+                        "typed-generic-disagree",
+                        "file of {} x{} requested as {}: Reader::read_as is {}, ShapeReader::read_as is {}",
+                        self.actual.name(),
+                        self.n,
+                        s_ty.name(),
+                        if a.is_ok() { "Ok" } else { "Err" },
+                        if b.is_ok() { "Ok" } else { "Err" }
+                    ),
+                }
+                match first {
+                    None => ensure!(self.n == 0, "count", "iter_shapes_and_records_as yields nothing for {} records", self.n),
+                    Some(Ok((v, _))) => ensure!(
+                        self.n > 0 && s_ty == self.actual && v.view() == self.generic[0],
+                        "wrong-type-yielded",
+                        "iter_shapes_and_records_as::<{}> yields a value that is not record 0 of the {} file",
+                        s_ty.name(),
+                        self.actual.name()
+                    ),
+                    Some(Err(e)) => ensure!(
+                        self.n > 0 && s_ty != self.actual && mismatch_of(&e) == Some((s_ty, self.actual)),
+                        "typed-error",
+                        "iter_shapes_and_records_as::<{}> on a {} file: {:?}",
+                        s_ty.name(),
+                        self.actual.name(),
+                        e
+                    ),
+                }
+            }
             // iterator form: never yields a value of the wrong type (stop at the first error: what an
             // iterator does after an error is C07's subject)
             let mut r = open()?;
